@@ -120,54 +120,112 @@ def R1_traverse(ctx):
 def R2_record(ctx):
     """C08.R2 energy = rate x adjustment over the distance, cache transparent"""
     F = ctx.F
-    ctx.rule("C08.R2", "PredictionModelRecord::predict: on every Ok path the result is Energy::create(rate * self.real_world_energy_adjustment, self.energy_rate_unit, distance.0, distance.1) with rate = prediction_model.predict(speed, grade).0 or the cached raw rate; the value written to the cache is exactly the raw rate returned on that miss, under the key vec![speed.0, grade.0] that the lookup used", floor=8)
+    ctx.rule("C08.R2", "PredictionModelRecord::predict: on every Ok path the result is Energy::create(rate * self.real_world_energy_adjustment, self.energy_rate_unit, distance.0, distance.1) with rate = prediction_model.predict(speed, grade).0 or the cached raw rate; the value written to the cache is exactly the raw rate returned on that miss, under the key vec![speed.0, grade.0] that the lookup used (the cache logic may live in predict itself or in a helper of it)", floor=8)
     b = F.need(REC + "::predict")
-    tm = Terms(b)
-    A = Arith(F)
-    A.items_numeric = False
+    GET = "routee_compass_core::util::cache_policy::float_cache_policy::FloatCachePolicy::get"
+    UPD = "routee_compass_core::util::cache_policy::float_cache_policy::FloatCachePolicy::update"
     S = lambda n: Ratio(Poly.sym(n))
     pred = ("call", P + "prediction::prediction_model::PredictionModel::predict", (("field", ("arg", 1), "prediction_model"), ("arg", 2), ("arg", 3)))
     raw = ("field", pred, "0")
     key = ("call", "vec!", (("array", (("call", "<%sspeed::Speed as %sas_f64::AsF64>::as_f64" % (U, U), (("field", ("arg", 2), "0"),)), ("call", "<%sgrade::Grade as %sas_f64::AsF64>::as_f64" % (U, U), (("field", ("arg", 3), "0"),)))),))
-    getc = ("call", "routee_compass_core::util::cache_policy::float_cache_policy::FloatCachePolicy::get", (("field", ("arg", 1), "cache"), key))
-    A.symbols = {raw: "rate", getc: "cached", ("field", ("arg", 1), "real_world_energy_adjustment"): "adj"}
-    n = 0
-    arms = set()
-    for r in table(b, max_paths=100000):
-        if r.end != "return" or result_variant(r.ret) != "Ok":
+    getc = ("call", GET, (("field", ("arg", 1), "cache"), key))
+    # where does the cache logic live?
+    known = known_functions()
+    tree, work = [], [b.path]
+    while work:
+        p_ = work.pop()
+        if p_ in tree or p_ not in F.bodies:
             continue
-        n += 1
+        tree.append(p_)
+        for c in F.bodies[p_].calls():
+            if c.callee and known and c.callee in F.bodies and c.callee not in known and "{closure" not in c.callee:
+                work.append(c.callee)
+    holders = [F.bodies[p_] for p_ in tree if any(c.callee == GET for c in F.bodies[p_].calls())]
+    if not ctx.check(len(holders) == 1, "cache:holder", "the cache lookup is not found in predict or exactly one helper of it (found %d)" % len(holders), b.where()):
+        return
+    cb = holders[0]
+    in_helper = cb is not b
+    A = Arith(F)
+    A.items_numeric = False
+    A.symbols = {raw: "rate", getc: "cached", ("field", ("arg", 1), "real_world_energy_adjustment"): "adj"}
+    # (1) predict: Energy::create(X * adj, rate unit, d, du) where X is the arm value (inline) or the helper's value
+    if in_helper:
+        with no_inline():
+            tm = Terms(b)
+            rows_b = [r for r in table(b, max_paths=100000) if r.end == "return" and result_variant(r.ret) == "Ok"]
+    else:
+        tm = Terms(b)
+        rows_b = [r for r in table(b, max_paths=100000) if r.end == "return" and result_variant(r.ret) == "Ok"]
+    hcall = None
+    if in_helper:
+        hs = [c for c in b.calls() if c.callee == cb.path]
+        if not ctx.check(len(hs) == 1, "cache:helper-called-once", "the helper holding the cache logic is not called exactly once by predict", b.where()):
+            return
+        with no_inline():
+            hargs = [nosite(deep_strip(tm.operand(a, hs[0].bb))) for a in hs[0].args]
+            hcall0 = nosite(deep_strip(tm.call_term(hs[0].term, hs[0].bb)))
+        if not ctx.check(hargs[:3] == [("arg", 1), ("arg", 2), ("arg", 3)], "cache:helper-args", "the helper does not receive (self, speed, grade) unchanged: %s" % [short(x) for x in hargs], hs[0].where()):
+            return
+        hcall = hcall0
+        A.symbols[hcall] = "hrate"
+    arms = set()
+
+    def arm_of(r):
+        return "no-cache" if sel_is(r, ("field", ("arg", 1), "cache"), "None") else ("hit" if sel_is(r, nosite(getc), "Some") else "miss")
+
+    for r in rows_b:
         pay = agg_payload(r.ret)
-        cr = [x for x in subterms(pay) if x[0] == "call" and x[1] == U + "energy::Energy::create"]
-        cr = list(dict.fromkeys(cr))
+        cr = list(dict.fromkeys(x for x in subterms(pay) if x[0] == "call" and x[1] == U + "energy::Energy::create"))
         if not ctx.check(len(cr) == 1, "energy:single-create", "the Ok value is not built from one Energy::create: %s" % short(pay)[:160], b.where()):
             continue
         c = cr[0]
         ok_pay = pay == c or pay == ("tuple", (("field", c, "0"), ("field", c, "1")))
         ctx.check(ok_pay, "energy:returned-unchanged", "the created (energy, unit) pair is altered before it is returned: %s" % short(pay)[:160], b.where(), detail="Ok(create(..))")
         rate = A.ev(c[2][0])
-        hit = r.sel.get(nosite(getc)) == "Some" if nosite(getc) in r.sel else None
-        cache_arm = r.sel.get(("field", ("arg", 1), "cache"))
-        arm = "no-cache" if sel_is(r, ("field", ("arg", 1), "cache"), "None") else ("hit" if sel_is(r, nosite(getc), "Some") else "miss")
-        arms.add(arm)
-        want = (S("cached") if arm == "hit" else S("rate")) * S("adj")
-        ctx.check(rate.equals(want), "rate*adjustment:%s" % arm, "on the %s arm the rate handed to Energy::create is %r, expected %r (adjustment applied exactly once to the model's rate)" % (arm, rate, want), b.where(), detail=repr(want))
-        ctx.check(c[2][1:] == (("field", ("arg", 1), "energy_rate_unit"), ("field", ("arg", 4), "0"), ("field", ("arg", 4), "1")), "create-args:%s" % arm, "Energy::create does not receive (self.energy_rate_unit, distance, distance_unit): %s" % short(("tuple", c[2][1:]))[:160], b.where(), detail="(rate_unit, d, du)")
-    ctx.check(arms == {"no-cache", "hit", "miss"}, "arms", "expected the no-cache, hit and miss arms, found %s" % sorted(arms), b.where())
-    up = [c for c in b.calls() if c.callee == "routee_compass_core::util::cache_policy::float_cache_policy::FloatCachePolicy::update"]
-    gc = [c for c in b.calls() if c.callee == "routee_compass_core::util::cache_policy::float_cache_policy::FloatCachePolicy::get"]
+        if in_helper:
+            ctx.check(rate.equals(S("hrate") * S("adj")), "rate*adjustment", "the rate handed to Energy::create is %r, expected (value of %s) * adjustment" % (rate, short_fn_name(cb.path)), b.where(), detail="helper(..) * adj")
+        else:
+            arm = arm_of(r)
+            arms.add(arm)
+            want = (S("cached") if arm == "hit" else S("rate")) * S("adj")
+            ctx.check(rate.equals(want), "rate*adjustment:%s" % arm, "on the %s arm the rate handed to Energy::create is %r, expected %r (adjustment applied exactly once to the model's rate)" % (arm, rate, want), b.where(), detail=repr(want))
+        ctx.check(c[2][1:] == (("field", ("arg", 1), "energy_rate_unit"), ("field", ("arg", 4), "0"), ("field", ("arg", 4), "1")), "create-args", "Energy::create does not receive (self.energy_rate_unit, distance, distance_unit): %s" % short(("tuple", c[2][1:]))[:160], b.where(), detail="(rate_unit, d, du)")
+    ctx.check(bool(rows_b), "energy:ok-path", "predict has no Ok path", b.where())
+    # (2) the helper's value per arm: the cached raw rate on a hit, the model's rate otherwise
+    ctm = Terms(cb)
+    if in_helper:
+        hrows = []
+        for r in table(cb, max_paths=100000):
+            if r.end != "return" or is_err_value(r.ret) or result_variant(r.ret) == "Err":
+                continue
+            if result_variant(r.ret) != "Ok":
+                # the value of another fallible call returned as is (payload convention: x stands for its Ok payload)
+                r.ret = ("agg", "std::result::Result", "Ok", (("0", r.ret),))
+            hrows.append(r)
+        for r in hrows:
+            arm = arm_of(r)
+            arms.add(arm)
+            val = A.ev(agg_payload(r.ret))
+            want = S("cached") if arm == "hit" else S("rate")
+            ctx.check(val.equals(want), "rate:%s" % arm, "on the %s arm %s returns %r, expected %r (the raw rate; the adjustment is applied once by predict)" % (arm, short_fn_name(cb.path), val, want), cb.where(), detail=repr(want))
+    ctx.check(arms == {"no-cache", "hit", "miss"}, "arms", "expected the no-cache, hit and miss arms, found %s" % sorted(arms), cb.where())
+    up = [c for c in cb.calls() if c.callee == UPD]
+    gc = [c for c in cb.calls() if c.callee == GET]
     ok = len(up) == 1 and len(gc) == 1
     if ok:
-        ua, ga = args_of(tm, up[0]), args_of(tm, gc[0])
+        ua, ga = args_of(ctm, up[0]), args_of(ctm, gc[0])
         ctx.check(ga[1] == key and ua[1] == key and ga[0] == ua[0] == ("field", ("arg", 1), "cache"), "cache:key=(speed, grade) for get and update", "the cache is not read and written under vec![speed.0.as_f64(), grade.0.as_f64()]: get %s update %s" % (short(ga[1])[:80], short(ua[1])[:80]), up[0].where(), detail="vec![speed.0, grade.0]")
         w = A.ev(ua[2])
         ctx.check(w.equals(S("rate")), "cache:stores-the-raw-rate-it-returns", "the value written to the cache is %r but a later hit is used as the raw rate (the miss arm returns `rate`): the adjustment would be applied %s on hits" % (w, "twice" if w.equals(S("rate") * S("adj")) else "differently"), up[0].where(), detail="update(key, rate)")
-        ctx.check(try_propagation(b, up[0], tm)["kind"] == "propagated" and try_propagation(b, gc[0], tm)["kind"] == "propagated", "cache:errors", "cache errors are not propagated", up[0].where())
+        ctx.check(try_propagation(cb, up[0], ctm)["kind"] == "propagated" and try_propagation(cb, gc[0], ctm)["kind"] == "propagated", "cache:errors", "cache errors are not propagated", up[0].where())
     else:
-        ctx.bad("cache:anchors", "expected one cache get and one update", b.where())
-    for c in b.calls():
-        if c.func.get("method") == "predict" and (c.func.get("dyn") or c.func.get("virtual") or "PredictionModel::predict" in (c.callee or "")):
-            ctx.check(try_propagation(b, c, tm)["kind"] == "propagated", "model:error@bb%d" % 0, "Err of the prediction model is not propagated", c.where())
+        ctx.bad("cache:anchors", "expected one cache get and one update", cb.where())
+    for p_ in tree:
+        tb = F.bodies[p_]
+        ttm = Terms(tb)
+        for c in tb.calls():
+            if c.func.get("method") == "predict" and (c.func.get("dyn") or c.func.get("virtual") or "PredictionModel::predict" in (c.callee or "")):
+                ctx.check(try_propagation(tb, c, ttm)["kind"] == "propagated", "model:error@%s" % short_fn_name(p_), "Err of the prediction model is not propagated", c.where())
 
 
 def sel_get(r, t):
